@@ -35,6 +35,7 @@ type C15Scenario struct {
 	// fault plan: callback kind -> 1-based invocation numbers that fail (atomically, without effect)
 	Faults   map[string][]int `json:"faults"`
 	CbYields int              `json:"cb_yields"` // yields inside store callbacks
+	Sized    bool             `json:"sized"`     // stored values report sizes of their own to the LRU facade (some exceed its capacity)
 }
 
 var muxKeys = []int{0, 1, 2, -1, 7, math.MinInt}
@@ -45,6 +46,7 @@ func drawC15(rt *rapid.T) interface{} {
 	sc.Deep = rapid.SampledFrom([]int{2, 8, 64}).Draw(rt, "deep")
 	sc.LRUCap = rapid.SampledFrom([]int64{0, 0, 1, 2, 3}).Draw(rt, "lrucap")
 	sc.CbYields = rapid.IntRange(0, 2).Draw(rt, "cby")
+	sc.Sized = rapid.Bool().Draw(rt, "sized")
 	nk := rapid.IntRange(1, 4).Draw(rt, "nkeys")
 	var keys []int
 	for i := 0; i < nk; i++ {
@@ -85,6 +87,18 @@ func drawC15(rt *rapid.T) interface{} {
 }
 
 type storeVal struct{ Key, Ver int }
+
+// sizedVals makes stored values report their own size to the LRU facade (cache.Value): version v weighs
+// valSizes[v % len]; some are larger than any LRU capacity drawn, so "can never stay cached" paths run.
+var sizedVals bool
+var valSizes = []int{1, 1, 2, 5, 1, 9}
+
+func (v storeVal) Size() int {
+	if !sizedVals {
+		return 1
+	}
+	return valSizes[v.Ver%len(valSizes)]
+}
 
 var (
 	errStoreNotFound = errors.New("store: not found")
@@ -167,6 +181,7 @@ func runC15(t *testing.T, sci interface{}, keepLog bool) *hx.Outcome {
 		}
 	}
 
+	sizedVals = sc.Sized
 	main := func(s *simrt.Sim) {
 		st := &muxStore{s: s, data: map[int]int{}, calls: map[string]int{}, faults: map[string]map[int]bool{}, busy: map[int]string{},
 			yields: sc.CbYields, ev: &ev, recs: &recs, byVer: map[int]*muxRec{}}
@@ -409,6 +424,12 @@ func runC15(t *testing.T, sci interface{}, keepLog bool) *hx.Outcome {
 							}
 						}
 						lastGetOK[op.Key] = op.Op == "get" && err == nil
+						if lastGetOK[op.Key] && sc.LRUCap > 0 {
+							// a value larger than the whole LRU capacity is evicted by its own insertion: not cached
+							if sv, ok := v.(storeVal); ok && int64(sv.Size()) > sc.LRUCap {
+								lastGetOK[op.Key] = false
+							}
+						}
 						if op.Audit {
 							audit(op.Key, "after-op")
 							lastGetOK[op.Key] = false
